@@ -250,6 +250,51 @@ func init() {
 				}
 			}
 
+			// ---- rolling restart (C03 / C10): the other instance is REPLACED by a new process while a login is outstanding and a
+			// session exists: nothing a login or a session needs lives in the memory of the process that started or saved it
+			{
+				nb := newBrowser()
+				sb := newBrowser()
+				lr2 := a.login(sb, u, "/")
+				loc := ""
+				if resp, err := rp.do(a.opts.ProxyPrefix+"/start?rd=%2Fafter-restart", "", nil); err == nil {
+					nb.apply(resp)
+					loc = resp.Header.Get("Location")
+				}
+				cb, _, aerr := a.idp.authorize(loc, u)
+				rp.stop()
+				rp2, err := a.startReplica()
+				if err != nil || aerr != nil || loc == "" || !lr2.OK {
+					c.violation("HARNESS", fmt.Sprintf("rolling restart could not be set up: %v %v", err, aerr), in(nil))
+					if rp2 == nil {
+						a.close()
+						continue
+					}
+				}
+				rp = rp2
+				c.count("replicas:restart")
+				if aerr == nil && loc != "" {
+					cu, _ := url.Parse(cb)
+					status, landing := 0, ""
+					if resp, err := rp.do(cu.RequestURI(), nb.cookieHeader(), nil); err == nil {
+						nb.apply(resp)
+						status, landing = resp.StatusCode, resp.Header.Get("Location")
+					}
+					c.casen(fmt.Sprintf("replicas|%v|restart-login", redis), fmt.Sprint(status))
+					if status != 302 || !hasAnySessionCookie(nb, a.opts.Cookie.Name) {
+						c.violation("C03", "a login started before an instance was restarted (same configuration) and completed after it, with its own unmodified state and CSRF cookie, did not complete: status "+fmt.Sprint(status),
+							in(map[string]interface{}{"status": status}))
+					} else if landing != "/after-restart" {
+						c.violation("C06", "login across a restart: the landing page differs from the plain same-site path requested", in(map[string]interface{}{"landing": landing}))
+					}
+				}
+				if lr2.OK {
+					if ok, _ := served(1, sb.cookieHeader()); !ok {
+						c.violation("C10", "a session saved before an instance was restarted (same configuration, same secret) is not loaded by the restarted instance", in(nil))
+					}
+				}
+			}
+
 			// ---- C09: accepted while valid by B, refused by both once the lifetime has run out
 			{
 				s := a.sessionFor(u, time.Hour-3*time.Second)
@@ -271,6 +316,6 @@ func init() {
 			rp.stop()
 			a.close()
 		}
-		c.close([]string{"replicas:same-session", "replicas:concurrent-refresh", "replicas:signout", "replicas:presented-again-after-expiry", "replicas:cross-instance-login"})
+		c.close([]string{"replicas:same-session", "replicas:concurrent-refresh", "replicas:signout", "replicas:presented-again-after-expiry", "replicas:cross-instance-login", "replicas:restart"})
 	})
 }
